@@ -66,7 +66,7 @@ def testPrivateKey (X : Ctx α β) (priv : Bytes) : Outcome Int :=
 /-- `DerivePublic(priv)` -/
 def derivePublic (X : Ctx α β) (priv : Bytes) : Outcome (Bytes × Bytes) := do
   let pub ← scalarBaseMult X priv
-  let pubBytes := Point.bytes X.C pub false
+  let pubBytes := Point.bytes X.C pub true      -- pub.Bytes(): constant-time inversion of Z
   if pubBytes.length ≠ 65 then .err else
   pure ((pubBytes.drop 1).take 32, pubBytes.drop 33)
 
@@ -90,7 +90,7 @@ def generateKey (X : Ctx α β) (rand : Option Script) : Outcome ((Bytes × Byte
     -- fuel: every successful ReadFull lowers `avail` by exactly 32 (the Go loop is unbounded)
     let (priv, sc') ← genKeyLoop X (avail sc / 32 + 1) sc
     let pub ← scalarBaseMult X priv
-    let pubBytes := Point.bytes X.C pub false
+    let pubBytes := Point.bytes X.C pub true      -- pub.Bytes(): constant-time inversion of Z
     if pubBytes.length ≠ 65 then .err else
     pure ((priv, (pubBytes.drop 1).take 32, pubBytes.drop 33), avail sc - avail sc')
 
@@ -127,7 +127,7 @@ def signLoop (X : Ctx α β) (priv e : Bytes) : Nat → Script → Outcome ((Byt
         if c ≥ 0 ∨ K.all (· == 0) then signLoop X priv e fuel sc' else
         match scalarBaseMult X K with
         | .ok kG =>
-          let x := Point.getAffineXUnsafe X.C kG
+          let x := Point.getAffineX X.C kG      -- kG.GetAffineX(): constant-time inversion of Z
           let eInt := Bytes.toNatBE e
           let rInt := (x + eInt) % X.n
           if rInt = 0 then signLoop X priv e fuel sc' else
